@@ -179,6 +179,47 @@ class Pair:
         else:
             raise ValueError(a)
 
+    def _quiescent(self, e: dict, delivered: bool) -> bool:
+        return not delivered and not e["_pdus"] and e["exc"] == "none" and e["pre"] == e["post"] and not e["ind"] and not e["flt"]
+
+    def step_canon(self, a: str, x: int) -> None:
+        """One recorded action under the canonical pacing rule (see run_hist)."""
+        if not hasattr(self, "settled"):
+            self.settled = set()
+        if a in ("S", "Se"):
+            if self.src_closed():            # closed transaction: the entity layer answers whatever arrives
+                if self.q["ds"]:
+                    self.src_entity()
+                self.settled |= {"S"}
+            else:
+                deliver = bool(self.q["ds"])
+                e = self.src_call(deliver)
+                self.settled = (self.settled | {"S"}) if self._quiescent(e, deliver) else (self.settled - {"S"})
+            self.turn = "D"
+        elif a in ("D", "De"):
+            if self.dst_closed():
+                if self.q["sd"]:
+                    self.dst_entity()
+                self.settled |= {"D"}
+            else:
+                deliver = bool(self.q["sd"])
+                wrej = x == 2 and deliver and type(self.q["sd"][0]).__name__ in ("FileDataPdu", "MetadataPdu")
+                e = self.dst_call(deliver, wrej=wrej)
+                self.settled = (self.settled | {"D"}) if self._quiescent(e, deliver) else (self.settled - {"D"})
+            self.turn = "S"
+        elif a == "tick":
+            # time passes only when calm: drain the links and poll both handlers until nothing moves (bounded)
+            for _ in range(60):
+                if not self.q["sd"] and not self.q["ds"] and self.settled >= {"S", "D"}:
+                    break
+                self.step_canon(self.turn, 0)
+            self.tick(x)
+            self.settled = set()
+        else:
+            if a in ("cancelS", "cancelD", "put"):
+                self.settled = set()
+            self.step(a, x)
+
     # ---- canonical entity loop (the model's Pacing = "canon" without faults) ----
     def run_on(self, max_turns: int = 400, idle_ticks: int = 12, script: dict | None = None, one_txn: bool = False, sibling=None) -> bool:
         """script: {(link, n): kind} faults applied to the n-th PDU delivered from that link during this call (C11);
@@ -246,16 +287,25 @@ def _with_data(w: World, fd, data: bytes):
     return w.conc(a)
 
 
-def run_hist(cfg: dict, hist: list, tid: int, props: list[str], cont: bool = True) -> dict:
-    """hist: sequence of [a, x] actions of a behaviour of spec/Cfdp.tla (after Init = the accepted put request)."""
+def run_hist(cfg: dict, hist: list, tid: int, props: list[str], cont: bool = True, pacing: str = "canon") -> dict:
+    """hist: sequence of [a, x] actions of a behaviour of spec/Cfdp.tla (after Init = the accepted put request).
+    pacing "free": every action is replayed literally.  pacing "canon": the recorded faults, cancel requests, put requests and
+    clock steps are replayed where they were recorded, but handler calls follow the canonical pacing RULE instead of the
+    recorded flags - a call delivers a PDU whenever one is waiting, and before time passes both links are drained and both
+    handlers polled until nothing moves.  On code that conforms to the specification this is the recorded behaviour itself;
+    on code that does not (a PDU more or less than the model sent), the run is still one of the schedules the properties
+    quantify over (at most K faults, no PDU delayed by the replay itself), so its verdict means something."""
     p = Pair(cfg)
     try:
         p.put()
         for a, x in hist:
-            p.step(a, x)
+            if pacing == "canon":
+                p.step_canon(a, x)
+            else:
+                p.step(a, x)
         done = p.run_on() if cont else (p.done() and not p.more_to_put())
         tr = p.w.trace(tid, "pair", sched=[[a, x] for a, x in hist])
-        tr.update(props=props, nfaults=p.nfaults, ncorrupt=p.ncorrupt, done=done, cuts=sorted(p.cut))
+        tr.update(props=props, nfaults=p.nfaults, ncorrupt=p.ncorrupt, done=done, cuts=sorted(p.cut), pacing=pacing)
         return tr
     finally:
         p.w.cleanup()
